@@ -1449,11 +1449,13 @@ Proof.
 Qed.
 Lemma inert_test t : Forall inert (print_test t).
 Proof.
-  destruct t as [| |a r b| | | | | |]; try constructor; try (apply inert_esc; cbn; congruence); try constructor.
-  destruct a as [a|]; [|constructor]. destruct b as [b|]; [|constructor].
-  cbn [print_test]. constructor; [apply inert_esc; cbn; congruence|].
-  apply Forall_app. split; [apply Forall_map_tok, inert_other|].
-  constructor; [destruct r; apply inert_other|].
-  apply Forall_app. split; [apply Forall_map_tok, inert_other|].
-  constructor; [apply inert_esc; cbn; congruence|constructor].
+  destruct t as [| |a r b| | | | | |]; try (constructor; fail).
+  - constructor; [apply inert_esc; cbn; congruence|constructor].
+  - constructor; [apply inert_esc; cbn; congruence|constructor].
+  - destruct a as [a|]; [|constructor]. destruct b as [b|]; [|constructor].
+    cbn [print_test]. constructor; [apply inert_esc; cbn; congruence|].
+    apply Forall_app. split; [apply Forall_map_tok, inert_other|].
+    constructor; [destruct r; apply inert_other|].
+    apply Forall_app. split; [apply Forall_map_tok, inert_other|].
+    constructor; [apply inert_esc; cbn; congruence|constructor].
 Qed.
